@@ -1,5 +1,6 @@
 import Agd.Model.Config
 import Agd.Model.ConfigShape
+import Agd.Model.ConfigBackend
 import Agd.Driver.Util
 /-!
 Line-protocol driver for the C20 model.
@@ -16,6 +17,11 @@ Line-protocol driver for the C20 model.
   on the last configuration (`absent|bad|good` for URLs): `ok` or `err VAR[;VAR…]`; `envbuild` — the builder
   steps that dereference those variables: `ok` or `panic …`.
 * `handle is4 tcp respLen` — one query: `served w`, `stuck path` or `panic …`.
+* `bstart` — the backend-facing builder steps (billing statistics, profile database, rate limiter with their
+  refresh workers) over the last configuration: `ok` or `panic <step>`; `bprof backend|cache applies rps len` —
+  `Check`, `CountResponses` on a response of `len` bytes, `Check` on the limiter of a profile with a custom limit
+  of `rps` per second that was built from the backend's answer / restored from the cache file:
+  `<first> <second>` (`pass|drop|global`) or `panic div-zero`.
 * `shape if=b web=kind lurl=b qlog=b ac=kind g=ddr/tls/srv,srv…/profiles …` — a file whose server groups are
   rebuilt from scratch: `ok` or `err server_groups.<i>.<part>:<kind>`; `startup` — the builder steps of `Main`
   over the last shape: `ok tickets=… tls=n web=b qlog=b prof=b groups=n`, `xerr <stage>` or `panic <stage>`.
@@ -335,6 +341,17 @@ def step (s : S) : List String → S × String
     match build s.c with
     | .ok _ => (s, "ok")
     | .error p => (s, showPanic p)
+  | ["bstart"] =>
+    match Backend.start (Backend.wire s.c) with
+    | .ok _ => (s, "ok")
+    | .error (.ticker st) => (s, "panic " ++ st.name)
+    | .error .divZero => (s, "panic div-zero")
+  | ["bprof", src, applies, rps, len] =>
+    let so : Backend.Source := if src == "cache" then .cache else .backend
+    match Backend.probe (Backend.estOf (Backend.wire s.c) so) (bool! applies) (nat! rps) (nat! len) with
+    | .ok (a, b) => (s, a.name ++ " " ++ b.name)
+    | .error (.ticker st) => (s, "panic " ++ st.name)
+    | .error .divZero => (s, "panic div-zero")
   | ["handle", is4, tcp, len] =>
     match handle s.c { is4 := bool! is4, tcp := bool! tcp, respLen := nat! len } with
     | .ok (.served w) => (s, s!"served {w}")
